@@ -147,6 +147,29 @@ pub fn run(out: &mut Out, tier: &str, seed: u64) {
         latch_cases(out, &bad);
         let ss = scalar_stream(&mut rng);
         latch_cases(out, &ss);
+        // the failing document in the middle of a stream: well-formed documents before it and after it; whatever
+        // follows the error - more documents included - is never delivered and no second error is reported
+        {
+            let mut mid: Vec<u8> = Vec::new();
+            if rng.chance(1, 2) {
+                mid.extend_from_slice(b"{\"id\":1,\"skip\":\"x\"}\n");
+            }
+            let fail: Vec<u8> = match rng.below(6) {
+                0 => bad.clone(),
+                1 => b"{\"id\":2,\"skip\":\"ab\xffcd\"}".to_vec(),
+                2 => b"[\"\xc3\x28\",{\"id\":3}]".to_vec(),
+                3 => b"{\"id\":4,\"skip\":[1e999]}".to_vec(),
+                4 => b"{\"id\":\"five\",\"skip\":\"\xf0\x9f\"}".to_vec(),
+                _ => b"{\"id\":6,\"skip\":\"\\ud800\"}".to_vec(),
+            };
+            mid.extend_from_slice(&fail);
+            mid.extend_from_slice(*rng.pick(&[&b"\n"[..], b" ", b"\n\n"]));
+            for _ in 0..rng.range(1, 3) {
+                mid.extend_from_slice(*rng.pick(&[&b"{\"id\":7,\"skip\":\"y\"}\n"[..], b"[1,2] ", b"{\"id\":8}\n", b"\"s\" ", b"9 "]));
+            }
+            out.count("latch: error followed by further documents");
+            latch_cases(out, &mid);
+        }
         // a malformed document behind documents that were already delivered: the error of the later document
         // locates itself in the whole input (offset, line and column), through streams and repeated deserialize()
         if label != "valid" {
@@ -250,6 +273,56 @@ fn latch_cases(out: &mut Out, input: &[u8]) {
         transcript(|| st.next())
     });
     latch_report(out, "stream<Vec<String>>", &h, r);
+    // targets that do not decode what they step over: their errors surface late (the deferred UTF-8 check of byte
+    // input, a value handed out as raw text) and must end the stream like any other
+    let r = entry::guarded(|| {
+        let mut st = sonic_rs::Deserializer::from_slice(input).into_stream::<serde::de::IgnoredAny>();
+        transcript(|| st.next())
+    });
+    latch_report(out, "stream<IgnoredAny>", &h, r);
+    let r = entry::guarded(|| {
+        let mut st = sonic_rs::Deserializer::from_slice(input).into_stream::<sonic_rs::OwnedLazyValue>();
+        transcript(|| st.next())
+    });
+    latch_report(out, "stream<OwnedLazyValue>", &h, r);
+    let r = entry::guarded(|| {
+        let mut st = sonic_rs::Deserializer::from_slice(input).into_stream::<sonic_rs::LazyValue>();
+        transcript(|| st.next())
+    });
+    latch_report(out, "stream<LazyValue>", &h, r);
+    let r = entry::guarded(|| {
+        let mut st = sonic_rs::Deserializer::from_slice(input).into_stream::<OnlyId>();
+        transcript(|| st.next())
+    });
+    latch_report(out, "stream<OnlyId>", &h, r);
+    let r = entry::guarded(|| {
+        let mut st = sonic_rs::Deserializer::from_slice(input).into_stream::<serde_json::Value>();
+        transcript(|| st.next())
+    });
+    latch_report(out, "stream<serde_json::Value>", &h, r);
+    {
+        let b = bytes::Bytes::copy_from_slice(input);
+        let r = entry::guarded(|| {
+            let mut st = sonic_rs::Deserializer::from_json(&b).into_stream::<OnlyId>();
+            transcript(|| st.next())
+        });
+        latch_report(out, "bytes stream<OnlyId>", &h, r);
+    }
+    if let Ok(text) = std::str::from_utf8(input) {
+        let r = entry::guarded(|| {
+            let mut st = sonic_rs::Deserializer::from_str(text).into_stream::<OnlyId>();
+            transcript(|| st.next())
+        });
+        latch_report(out, "str stream<OnlyId>", &h, r);
+    }
+}
+
+/// a record that reads one member and steps over the others
+#[derive(serde::Deserialize)]
+#[allow(dead_code)]
+struct OnlyId {
+    #[serde(default)]
+    id: Option<u32>,
 }
 
 /// streams of scalars of mixed types: "1 2 \"x\" 300 4 [\"a\"] ..."
